@@ -584,3 +584,72 @@ Proof.
   - eapply ex_sound_dup; eassumption.
   - eapply ex_sound_non; eassumption.
 Qed.
+
+(* ------------------------------------------------------------------ completeness of the inversion *)
+Lemma ex_In_memz : forall x l, In x l -> ex_memz x l = true.
+Proof. intros. apply ex_memz_In. assumption. Qed.
+Lemma ex_In_mem2 : forall a b l, In (a, b) l -> ex_mem2 a b l = true.
+Proof. intros. apply ex_mem2_In. assumption. Qed.
+
+Lemma ex_dg_eqb_refl : forall d, ex_dg_eqb d d = true.
+Proof. intros d. destruct d; cbn; rewrite ?Z.eqb_refl; reflexivity. Qed.
+
+Lemma ex_conclude_ok : forall strict m tok last cons acks,
+  ex_fresh strict m tok ->
+  ex_conclude strict m tok last cons acks = ExOk (ex_mon_concl m tok last cons acks).
+Proof.
+  intros strict m tok last cons acks F. unfold ex_conclude.
+  destruct strict; cbn [andb]; [rewrite (F eq_refl) |]; reflexivity.
+Qed.
+
+(* every accepted shape is accepted by the judge, with the same monitor state *)
+Ltac ex_rw_mem :=
+  repeat match goal with
+         | Hx : In (?a, ?b) ?l |- context [ex_mem2 ?a ?b ?l] => rewrite (ex_In_mem2 _ _ _ Hx)
+         | Hx : In ?x ?l |- context [ex_memz ?x ?l] => rewrite (ex_In_memz _ _ Hx)
+         | Hx : ex_memz ?x ?l = false |- context [ex_memz ?x ?l] => rewrite Hx
+         | Hx : ex_last_is ?m ?x = false |- context [ex_last_is ?m ?x] => rewrite Hx
+         end.
+Ltac ex_fresh_done :=
+  match goal with Hx : ex_fresh _ _ _ |- _ => apply ex_conclude_ok; exact Hx end.
+
+Lemma ex_step_ok_judge : forall strict m o m',
+  ex_step_ok strict m o m' -> ex_judge_step strict m o = ExOk m'.
+Proof.
+  intros strict m o m' H. destruct H; unfold ex_judge_step; cbn [fst snd].
+  - reflexivity.
+  - unfold ex_j_send. rewrite Z.eqb_refl. cbn [negb]. ex_rw_mem. reflexivity.
+  - reflexivity.
+  - unfold ex_j_timer. ex_rw_mem. reflexivity.
+  - unfold ex_j_timer, ex_j_nack. cbn. ex_rw_mem. cbn. ex_fresh_done.
+  - reflexivity.
+  - unfold ex_j_ackr. ex_rw_mem. reflexivity.
+  - unfold ex_j_ackr, ex_is_resp. rewrite !Z.eqb_refl. cbn. ex_rw_mem. cbn. ex_fresh_done.
+  - unfold ex_j_conr, ex_is_resp, ex_is_tx. rewrite !Z.eqb_refl, ex_dg_eqb_refl. cbn.
+    ex_rw_mem. cbn. ex_rw_mem. ex_fresh_done.
+  - unfold ex_j_conr.
+    assert (E1 : ex_is_tx (ExTx (if isack then ExAckE mid else ExRst mid)) (ExAckE mid) ||
+                 ex_is_tx (ExTx (if isack then ExAckE mid else ExRst mid)) (ExRst mid) = true).
+    { destruct isack; cbn; rewrite Z.eqb_refl; reflexivity. }
+    rewrite E1. cbn [negb]. ex_rw_mem. cbn [negb].
+    destruct (ex_m_last m) as [[lm la] |] eqn:EL; [| reflexivity].
+    destruct (lm =? mid) eqn:E2; [| reflexivity].
+    apply Z.eqb_eq in E2. subst lm.
+    match goal with Hx : forall la0, _ = Some (mid, la0) -> la0 = isack |- _ => rewrite (Hx la eq_refl) end.
+    unfold ex_is_tx. rewrite ex_dg_eqb_refl. reflexivity.
+  - unfold ex_j_nonr, ex_is_resp. rewrite !Z.eqb_refl. cbn. ex_rw_mem. reflexivity.
+  - unfold ex_j_nonr, ex_is_resp, ex_is_tx. rewrite !Z.eqb_refl. cbn. rewrite Z.eqb_refl. cbn.
+    ex_rw_mem. reflexivity.
+  - unfold ex_j_rst, ex_j_nack. rewrite Z.eqb_refl. cbn. ex_rw_mem. cbn. rewrite ?Z.eqb_refl. cbn.
+    ex_fresh_done.
+  - unfold ex_j_rst. cbn. rewrite Z.eqb_refl. reflexivity.
+Qed.
+
+Lemma ex_path_judge : forall strict t m m',
+  ex_mon_path strict m t m' -> ex_judge_from strict m t = 0.
+Proof.
+  intros strict t. induction t as [| o t IH]; intros m m' P.
+  - reflexivity.
+  - apply ex_mon_path_cons_inv in P. destruct P as [m1 [Hs P]].
+    cbn [ex_judge_from]. rewrite (ex_step_ok_judge _ _ _ _ Hs). eapply IH. exact P.
+Qed.
